@@ -15,7 +15,8 @@ Definition subtype_refl : Prop :=
   forall ct n t, is_subtype ct (S n) t t = Some true /\ is_proper_subtype ct (S n) t t = Some true.
 
 (* REFUTED by the faithful model inside the language (Properties.subtype_trans_statement_refuted, single-member
-   enum vs its literal); PROVED on fragment F1 (Properties.subtype_trans_partial) *)
+   enum vs its literal); PROVED on fragment F1 (Properties.subtype_trans_partial) and on fragment F2 (generic instances with
+   variance, promotions, bool/enum literals, unions) outside the refuted family X2 (Properties.subtype_trans_F2) *)
 Definition subtype_trans : Prop :=
   forall ct, wf_ct ct = true -> forall a b c, any_free a = true -> any_free b = true -> any_free c = true ->
   forall n1 n2 n3, is_subtype ct n1 a b = Some true -> is_subtype ct n2 b c = Some true ->
@@ -29,7 +30,9 @@ Definition proper_implies_subtype : Prop :=
 (* join_upper: PROVED on fragment F1up (Properties.join_upper_partial); meet_lower: REFUTED inside the language
    (Properties.meet_lower_statement_refuted, contravariant generic + promotion), PROVED on F1 (Properties.meet_lower_partial); simplified_union_equiv: PROVED for F1 atoms (Properties.simplified_union_equiv_partial);
    join_comm_equiv: REFUTED inside the language (Properties.join_comm_equiv_statement_refuted);
-   meet_comm_equiv: PROVED on F1 (Properties.meet_comm_equiv_partial) *)
+   meet_comm_equiv: PROVED on F1 (Properties.meet_comm_equiv_partial).
+   Wave 3, fragment F2: simplified_union_equiv_F2 (outside family X2), meet_lower_F2 and meet_comm_equiv_F2 (outside X2 and
+   the refuted family X3 = classes with an invariant/contravariant parameter); join_upper is NOT proved on F2 *)
 Definition join_upper : Prop :=
   forall ct, wf_ct ct = true -> forall n s t j, join_types ct n s t = Some j ->
   forall m, defined_true (is_subtype ct m s j) /\ defined_true (is_subtype ct m t j).
@@ -50,7 +53,9 @@ Definition simplified_union_equiv : Prop :=
 (* PROVED in the strong form "any lookup table contained in the graph of the uncached relation gives the
    same answers" (Properties.cache_sound_transparent); the state-machine corollary is proved when the
    recorded Instance keys contain no union (Instance.__eq__ on unions is set equality, and the model does
-   not prove that answers are invariant under reordering union items): Properties.cache_transparent_partial *)
+   not prove that answers are invariant under reordering union items): Properties.cache_transparent_partial.
+   Wave 3: on F2 answers ARE invariant under Type.__eq__ (Properties.eq_invariant_F2) and the state machine is
+   transparent without the union-free restriction (Properties.cache_transparent_F2) *)
 Definition cache_transparent : Prop :=
   forall ct fuel ops,
   Forall2 (fun a b => forall x y, a = Some x -> b = Some y -> x = y)
